@@ -28,6 +28,9 @@ enum PageFault {
     /// first attempt: connection cut in the middle of the page's frame
     CutMidFrame,
     Delay,
+    /// first attempt answered UNPREPARED (the coordinator for this page does not know the
+    /// statement: eviction, restart, or a switch to a node that never saw it)
+    Unprepared,
 }
 
 #[derive(Clone, Debug)]
@@ -148,6 +151,15 @@ impl Handler for Pager {
                 drop(st);
                 rq.error(ErrorBody::simple(errcode::INVALID, "scripted non-retried failure"));
             }
+            PageFault::Unprepared if attempt == 0 && matches!(&*rq.request, Request::Execute { .. }) => {
+                drop(st);
+                let id = match &*rq.request {
+                    Request::Execute { id, .. } => id.clone(),
+                    _ => vec![],
+                };
+                rq.node.evict(&id);
+                rq.error(ErrorBody::unprepared(&id));
+            }
             PageFault::CutMidFrame if attempt == 0 => {
                 drop(st);
                 let len = 9 + resp.encode_body().len();
@@ -227,6 +239,7 @@ fn gen_script(rng: &mut Rng, qid: u64, exhaustive_fault: Option<(usize, PageFaul
                     1 => PageFault::NonRetriedError,
                     2 => PageFault::CutMidFrame,
                     3 => PageFault::Delay,
+                    4 => PageFault::Unprepared,
                     _ => PageFault::None,
                 };
             }
@@ -480,7 +493,7 @@ pub fn run(ctx: &Ctx) -> Outcome {
     let mut scripts: Vec<Script> = Vec::new();
     let mut qid = 1u64;
     // fault enumeration: every fault kind at every page index of scripts of up to 6 pages
-    for f in [PageFault::RetryableError, PageFault::NonRetriedError, PageFault::CutMidFrame, PageFault::Delay] {
+    for f in [PageFault::RetryableError, PageFault::NonRetriedError, PageFault::CutMidFrame, PageFault::Delay, PageFault::Unprepared] {
         for i in 0..6 {
             for _ in 0..(if ctx.quick() { 2 } else { 12 }) {
                 scripts.push(gen_script(&mut rng, qid, Some((i, f))));
@@ -501,6 +514,7 @@ pub fn run(ctx: &Ctx) -> Outcome {
             "NonRetriedError" => PageFault::NonRetriedError,
             "CutMidFrame" => PageFault::CutMidFrame,
             "Delay" => PageFault::Delay,
+            "Unprepared" => PageFault::Unprepared,
             _ => PageFault::None,
         };
         let s = Script {
@@ -555,6 +569,7 @@ pub fn run(ctx: &Ctx) -> Outcome {
         "fault:NonRetriedError",
         "fault:CutMidFrame",
         "fault:Delay",
+        "fault:Unprepared",
         "pager:execute_iter",
         "pager:query_iter",
         "pager:control-connection",
